@@ -490,6 +490,9 @@ class SymReal:
     def __repr__(self):
         return f"Sym({self.t})"
 
+    def __format__(self, spec):
+        return f"Sym({self.t})"
+
     def __deepcopy__(self, memo):
         return self
 
